@@ -1082,3 +1082,11 @@ package main
 //@ func (h *Hub) topicsStateForUser__1(name any, t any) (more bool)
 //@   modifies *
 //@   ensures [C03] owned_and_p2p_topics_follow: dynptr(t, Topic) != nil && dynptr(t, Topic).cat != types.TopicCatMe && dynptr(t, Topic).cat != types.TopicCatFnd && (dynptr(t, Topic).owner == uid || (dynptr(t, Topic).cat == types.TopicCatP2P && (uid in dynptr(t, Topic).perUser))) ==> called("markReadOnly") == old(called("markReadOnly")) + 1
+
+// C03: a topic that is being shut down because its user is deleted is marked deleted - so that it accepts no further
+// message - before it is taken out of the hub's table and told to exit (the body of the walk, as a function of one
+// topic).
+//@ func (h *Hub) stopTopicsForUser__1(name any, t any) (more bool)
+//@   modifies *
+//@   assert at call Delete [C03] marked_before_unregistered: called("markDeleted") == old(called("markDeleted")) + 1
+//@   ensures [C03] stopped_topic_is_marked: dynptr(t, Topic) != nil && sent(old(dynptr(t, Topic).exit)) > old(sent(dynptr(t, Topic).exit)) ==> called("markDeleted") == old(called("markDeleted")) + 1
